@@ -216,6 +216,54 @@ func init() {
 			s := m.makeSlice(st.Elem(), m.asTerm(a[1]), m.asTerm(a[2]), "reflect.MakeSlice")
 			return reflVal{t: t, v: s}
 		},
+		"reflect.Copy": func(m *Machine, c *frame, a []value) value {
+			dst, src := m.asReflVal(a[0]), m.asReflVal(a[1])
+			if dst.ro || src.ro {
+				m.reflPanic("reflect: reflect.Copy using value obtained using unexported field")
+			}
+			elemOf := func(t types.Type) types.Type {
+				switch u := t.Underlying().(type) {
+				case *types.Slice:
+					return u.Elem()
+				case *types.Array:
+					return u.Elem()
+				}
+				return nil
+			}
+			de, se := elemOf(dst.t), elemOf(src.t)
+			if de == nil || se == nil {
+				m.reflPanic("reflect: call of reflect.Copy on " + typeStr(dst.t) + ", " + typeStr(src.t) + " Values")
+			}
+			if !types.Identical(de, se) {
+				m.reflPanic("reflect.Copy: " + typeStr(de) + " != " + typeStr(se))
+			}
+			var d, sv []value
+			switch x := dst.get().(type) {
+			case []value:
+				d = x
+			case arrayV:
+				if !dst.canSet {
+					m.reflPanic("reflect: reflect.Copy using unaddressable value")
+				}
+				d = []value(x)
+			}
+			switch x := src.get().(type) {
+			case []value:
+				sv = x
+			case arrayV:
+				sv = []value(x)
+			}
+			n := len(d)
+			if len(sv) < n {
+				n = len(sv)
+			}
+			tmp := make([]value, n)
+			for i := 0; i < n; i++ {
+				tmp[i] = copyVal(sv[i])
+			}
+			copy(d, tmp)
+			return intTerm(n)
+		},
 		"reflect.Append": func(m *Machine, c *frame, a []value) value {
 			rv := m.asReflVal(a[0])
 			st, ok := rv.t.Underlying().(*types.Slice)
